@@ -33,6 +33,8 @@ def apply_outcome(value, o, tol, x=0.0):
         return base + tol
     if o == 'big':
         return base + tol * 4 + (1.0 if tol == 0 else 0.0)
+    if o == 'huge':
+        return 1.0e308        # finite, but two of them no longer add up to a finite number
     if o == 'nan':
         return math.nan
     if o == 'pinf':
